@@ -98,7 +98,7 @@ def _lin(e: ast.AST, al: Dict[str, ast.AST], depth: int = 0) -> Optional[Tuple[D
     if isinstance(e, ast.Name) and e.id in al:
         return _lin(al[e.id], al, depth + 1)
     if isinstance(e, (ast.Name, ast.Attribute)):
-        p = attr_path(e)
+        p = expand_path(e, al)
         if p:
             return {".".join(p): 1}, 0
         return None
